@@ -129,6 +129,20 @@ def recount_oracle(c):
         qs = list(g.target) + (list(g.control) if g.control else [])
         if len(set(qs)) != len(qs) or any((not isinstance(q, int)) or q < 0 for q in qs):
             problems.append("invalid-gate-kept")
+    # depth clause: depth() is the longest chain of gates that pairwise share a qubit (C11_depth_is_longest_chain)
+    last = {}
+    longest = 0
+    for g in gates:
+        qs = list(g.target) + (list(g.control) if g.control else [])
+        lvl = 1 + max([last.get(q, 0) for q in qs] or [0])
+        for q in qs:
+            last[q] = lvl
+        longest = max(longest, lvl)
+    try:
+        if c.depth() != longest:
+            problems.append("depth(%s!=%s)" % (c.depth(), longest))
+    except Exception as e:
+        problems.append("depth-raises-%s" % type(e).__name__)
     return problems
 
 
